@@ -229,7 +229,19 @@ Byte:
 			// Advance by one grapheme cluster, so that we consider each
 			// grapheme to be a "column".
 			// Ignoring error because this scanner cannot produce errors.
-			advance, _, _ := textseg.ScanGraphemeClusters(buf[i:], true)
+			advance, seq, _ := textseg.ScanGraphemeClusters(buf[i:], true)
+
+			// A grapheme cluster can extend over the byte that follows it
+			// (a "prepend" character such as U+0600 joins whatever comes
+			// next), but a quote, a backslash or a control character must
+			// still be seen by the cases above, so the advance stops short
+			// of them.
+			for j := 1; j < len(seq); j++ {
+				if c := seq[j]; c == '"' || c == '\\' || c < 32 {
+					advance = j
+					break
+				}
+			}
 
 			p.Pos.Byte += advance
 			p.Pos.Column++
